@@ -115,6 +115,7 @@ func runC05(r *core.Run) {
 		}
 	}
 	lengthSub(r, "lengths/all+attr+autoid", core.MustCfg("all+attr+autoid"), core.Pick(r, 1100, 2200), func(s *core.Sub, cv *core.Conv, w []byte) { c05Case(s, cv, w) })
+	docsSub(r, "wide/all+attr+autoid", "documents in which one node has N children (N top-level paragraphs, list items, emphasis nodes, lines, quoted paragraphs, table rows, descriptions, ordered items) for N = 2^k-1, 2^k, 2^k+1, k = 8.."+fmt.Sprint(core.Pick(r, 16, 18))+": same oracle", core.MustCfg("all+attr+autoid"), WideDocs(core.Pick(r, 16, 18)), func(s *core.Sub, cv *core.Conv, w []byte) { c05Case(s, cv, w) })
 	replSub(r, "replication/all+attr+autoid", core.MustCfg("all+attr+autoid"), core.Pick(r, 150, 300), func(s *core.Sub, cv *core.Conv, w []byte) { c05Case(s, cv, w) })
 	attrEntrySub(r, "attribute-entries/all+attr+autoid", core.MustCfg("all+attr+autoid"), 3, func(s *core.Sub, cv *core.Conv, w []byte) { c05Case(s, cv, w) })
 	attrSub(r, "attributes/all+attr+autoid", core.MustCfg("all+attr+autoid"), core.Pick(r, 4, 5), func(s *core.Sub, cv *core.Conv, w []byte) { c05Case(s, cv, w) })
